@@ -48,7 +48,7 @@ def make_case(rng, i):
     prof["async_mode"] = rng.choice(["none", "none", "none", "all", "half"])
     spec = gen.gen_spec(rng, prof)
     listeners = [p for p in spec["providers"] if p not in ("sm", "model")]
-    spec["eq_listeners"] = rng.random() < 0.25
+    spec["eq_listeners"] = rng.choice([False, False, False, False, False, True, True, "unhashable"])
     # multi-provider guards / validators
     others = [p for p in spec["providers"] if p != "sm"]
     unless_names = {g["name"] for t in spec["transitions"] for g in t["guards"] if g["kind"] == "unless"}
